@@ -25,6 +25,20 @@ func init() {
 		_, livingPlace := pub.Places()["livingplace"]
 		_, oldPlace := pub.Places()["oldplace"]
 		letters := html.GetIndexLetters(doc, html.LivingVisibilityHide)
+		// the statistics page in hide mode: the Individuals card (Total / Living / Dead) and the Events
+		// card (Total). I1 (living) has one event (BIRT), I2 (dead) has two (BIRT, DEAT).
+		statOpts := &html.PublishShowOptions{ShowStatistics: true, LivingVisibility: html.LivingVisibilityHide}
+		statAtoms := c17Atoms(c17render(html.NewStatisticsPage(doc, "", statOpts, letters, html.NewPublisher(doc, statOpts).Places())))
+		after := func(card string, n int) string {
+			for i, a := range statAtoms {
+				if a == "T"+card && i >= 3 && i+n < len(statAtoms) { // past title, nav item and big title
+					return strings.Join(statAtoms[i+1:i+1+n], " ")
+				}
+			}
+			return ""
+		}
+		indCard := after("Individuals", 6)
+		evTotal := after("Events", 2)
 		var b strings.Builder
 		b.WriteString("-- Source: behavioural probes (harness/extract_living.go) on a two-person file (one living, one dead)\n")
 		b.WriteString("-- published with -living hide: surnames.html, Publisher.Places(), GetIndexLetters.\n")
@@ -32,6 +46,10 @@ func init() {
 		fmt.Fprintf(&b, "def surnamesRespectVisibility : Bool := %v\n", !strings.Contains(surnamePage, "Ingsurname") && strings.Contains(surnamePage, "Timer"))
 		fmt.Fprintf(&b, "def placesRespectHide : Bool := %v\n", !livingPlace && oldPlace)
 		fmt.Fprintf(&b, "def hideLettersFromDead : Bool := %v\n", string(letters) == "t")
+		b.WriteString("-- statistics.html in hide mode (same file): the Individuals card shows Total 1 / Living 0 / Dead 1;\n")
+		b.WriteString("-- the Events card leaves out the living person's event (Total 2 instead of 3).\n")
+		fmt.Fprintf(&b, "def statsIndividualsHideLiving : Bool := %v\n", indCard == "TTotal T1 TLiving T0 TDead T1")
+		fmt.Fprintf(&b, "def statsEventsHideLiving : Bool := %v\n", evTotal == "TTotal T2")
 		b.WriteString("end Gedcom.Generated.Living\n")
 		return b.String()
 	}
